@@ -25,8 +25,8 @@ def population(ctx):
         return ["-corpus", conf.CORPUS, "-nexpr", 1500, "-nrand", 1500]
     if ctx.quick():
         return ["-corpus", conf.CORPUS, "-small-max", 3, "-small-slices", 24, "-small-slice", s % 24,
-                "-nrand", 220, "-ndp", 60, "-nctx", 80, "-nexpr", 40, "-nbig", 1, "-extra", 30]
-    return ["-corpus", conf.CORPUS, "-small-max", 3, "-nrand", 3000, "-ndp", 800, "-nctx", 1000, "-nexpr", 400, "-nbig", 15, "-extra", 60]
+                "-nrand", 220, "-ndp", 60, "-nctx", 80, "-nexpr", 40, "-nbig", 1, "-nopt", 30, "-nring", 20, "-extra", 30]
+    return ["-corpus", conf.CORPUS, "-small-max", 3, "-nrand", 3000, "-ndp", 800, "-nctx", 1000, "-nexpr", 400, "-nbig", 15, "-nopt", 300, "-nring", 200, "-extra", 60]
 
 
 def write_cfg(path, invs, kmax, limit, klang=0):
